@@ -205,7 +205,9 @@ func parseHeaders(h *protocol.ResponseHeader, buf []byte) (int, error) {
 	if h.ContentLength() < 0 {
 		h.SetContentLengthBytes(h.ContentLengthBytes()[:0])
 	}
-	if h.ContentLength() == -2 && !ConnectionUpgrade(h) && !h.MustSkipContentLength() {
+	// (a response that switches protocols is a 101, which has no body: an 'upgrade'
+	// option on any other response is an offer and changes nothing about its body)
+	if h.ContentLength() == -2 && !h.MustSkipContentLength() {
 		h.SetArgBytes(bytestr.StrTransferEncoding, bytestr.StrIdentity, protocol.ArgsHasValue)
 		h.SetConnectionClose(true)
 	}
